@@ -1,2 +1,240 @@
-(* placeholder until ApiProofs lands *)
-Example C10_placeholder : True. Proof. exact I. Qed.
+(* Properties_C10.v — C10: a rejected update leaves the option exactly as it was
+   (values, count, order, annotation, RESET / MODIFIED markers).
+   Only statements here; proofs are in ApiProofs.v.
+
+   MODEL  Api.opt_setmulti / cfg_setmulti, cfg_setnint/float/bool/str, cfg_setlist, cfg_addlist,
+          cfg_setcomment, cfg_addtsec, cfg_rmnsec, cfg_rmtsec, cfg_rmsec; Parser.setopt (cfg_setopt)
+   VOCABULARY (ApiProofs.v)
+     refused res c rc  :=  snd (fst res) = c /\ snd res = rc
+                           (the call answered rc and the tree is the one passed in; the world component
+                            may have gained diagnostics / callback log entries)
+   No side condition is needed anywhere in this file: in particular C10_setmulti_reverts holds for
+   every option, every flag word and every fuel (with fuel 0 cfg_setopt answers NULL at once). *)
+From Coq Require String.
+Import String.StringSyntax.
+From Coq Require Import List Arith NArith ZArith Bool.
+From Coq.Strings Require Import Byte.
+From LC Require Import Bytes Consts Conv Lexer Files Store Parser Api ApiProofs.
+Import ListNotations.
+Local Open Scope string_scope.
+Local Open Scope list_scope.
+
+(* (a) the flagship: when cfg_opt_setmulti fails — some value was refused by cfg_setopt after others
+   had already been stored, or no value was given — the option handed back is the original one:
+   values, RESET and MODIFIED bits and the annotation restored, everything else untouched. *)
+Theorem C10_setmulti_reverts :
+  forall (strtod_o : str -> strtod_res) (fuel : nat) (w : pw) (c : cfg) (o : opt)
+         (vals : list (option str)) (w' : pw) (o' : opt),
+  opt_setmulti strtod_o fuel w c o vals = (w', o', FAIL) -> o' = o.
+Proof. exact opt_setmulti_reverts. Qed.
+Print Assumptions C10_setmulti_reverts.
+
+(* what (a) rests on: cfg_setopt changes only o_vals and the RESET / MODIFIED bits, can only drop the
+   annotation, and the revert expression restores the two bits *)
+Theorem C10_setopt_frame :
+  forall (strtod_o : str -> strtod_res) (fuel : nat) (w : pw) (c : cfg) (o : opt) (txt : option str),
+  let o' := snd (fst (setopt strtod_o fuel w c o txt)) in
+  o_name o' = o_name o /\ o_kind o' = o_kind o /\ o_sub o' = o_sub o /\ o_def o' = o_def o /\
+  o_cbs o' = o_cbs o /\
+  N.ldiff (o_flags o') (N.lor CFGF_RESET CFGF_MODIFIED) = N.ldiff (o_flags o) (N.lor CFGF_RESET CFGF_MODIFIED) /\
+  (o_comment o = None -> o_comment o' = None).
+Proof. exact setopt_frame_fields. Qed.
+Print Assumptions C10_setopt_frame.
+
+Theorem C10_flags_restore :
+  forall f f' : N,
+  N.ldiff f' (N.lor CFGF_RESET CFGF_MODIFIED) = N.ldiff f (N.lor CFGF_RESET CFGF_MODIFIED) ->
+  N.lor (clrf (clrf f' CFGF_RESET) CFGF_MODIFIED) (N.land f (N.lor CFGF_RESET CFGF_MODIFIED)) = f.
+Proof. exact flags_restore. Qed.
+Print Assumptions C10_flags_restore.
+
+(* writing back the option that was read gives back the tree *)
+Theorem C10_put_opt_same :
+  forall (c : cfg) (r : optref) (o : opt), get_opt c r = Some o -> put_opt c r o = c.
+Proof. exact put_opt_same. Qed.
+Print Assumptions C10_put_opt_same.
+
+(* (b) the setters *)
+Theorem C10_setter_refusals :
+  forall (strtod_o : str -> strtod_res) (w : pw) (c : cfg) (name : str) (index : N),
+  (* the name does not resolve *)
+  (fst (cfg_getopt c name) = None ->
+   forall z b bl s vs ms cm fuel,
+     refused (cfg_setnint w c name z index) c FAIL /\
+     refused (cfg_setnfloat w c name b index) c FAIL /\
+     refused (cfg_setnbool w c name bl index) c FAIL /\
+     refused (cfg_setnstr w c name s index) c FAIL /\
+     refused (cfg_setlist w c name vs) c FAIL /\
+     refused (cfg_addlist w c name vs) c FAIL /\
+     refused (cfg_setmulti strtod_o fuel w c name ms) c FAIL /\
+     refused (cfg_setcomment w c name cm) c FAIL) /\
+  (* the name resolves to the option o *)
+  (forall r o, fst (cfg_getopt c name) = Some r -> get_opt c r = Some o ->
+   (* the kind differs *)
+   (forall z, o_kind o <> KInt -> refused (cfg_setnint w c name z index) c FAIL) /\
+   (forall b, o_kind o <> KFloat -> refused (cfg_setnfloat w c name b index) c FAIL) /\
+   (forall b, o_kind o <> KBool -> refused (cfg_setnbool w c name b index) c FAIL) /\
+   (forall s, o_kind o <> KStr -> refused (cfg_setnstr w c name s index) c FAIL) /\
+   (* an index on a plain option *)
+   (index <> 0%N -> oflag o CFGF_LIST = false -> oflag o CFGF_MULTI = false ->
+    forall z b bl s,
+      refused (cfg_setnint w c name z index) c FAIL /\
+      refused (cfg_setnfloat w c name b index) c FAIL /\
+      refused (cfg_setnbool w c name bl index) c FAIL /\
+      refused (cfg_setnstr w c name s index) c FAIL) /\
+   (* the validation callback objects *)
+   (forall z, snd (run_validcb2 w o (V2Int z)) = true -> refused (cfg_setnint w c name z index) c FAIL) /\
+   (forall b, snd (run_validcb2 w o (V2Float b)) = true -> refused (cfg_setnfloat w c name b index) c FAIL) /\
+   (forall s, snd (run_validcb2 w o (V2Str s)) = true -> refused (cfg_setnstr w c name s index) c FAIL) /\
+   (* list calls on a non-list *)
+   (oflag o CFGF_LIST = false ->
+    forall vs, refused (cfg_setlist w c name vs) c FAIL /\ refused (cfg_addlist w c name vs) c FAIL) /\
+   (* nothing to set *)
+   (forall fuel, refused (cfg_setmulti strtod_o fuel w c name []) c FAIL) /\
+   refused (cfg_setcomment w c name None) c FAIL).
+Proof. exact setter_refusals. Qed.
+Print Assumptions C10_setter_refusals.
+
+(* (c) the section calls *)
+Theorem C10_section_refusals :
+  forall (strtod_o : str -> strtod_res) (w : pw) (c : cfg) (name : str),
+  (fst (cfg_getopt c name) = None ->
+   forall fuel title, refused (cfg_addtsec strtod_o fuel w c name title) c false) /\
+  (rs_opt (getopt_secidx c name true) = None -> refused (cfg_rmsec w c name) c FAIL) /\
+  (forall r o, fst (cfg_getopt c name) = Some r -> get_opt c r = Some o ->
+   (* cfg_addtsec: the title is taken / not a section *)
+   (forall fuel t i, oflag o CFGF_TITLE = true -> o_kind o = KSec -> gettsecidx o t = Some i ->
+      refused (cfg_addtsec strtod_o fuel w c name (Some t)) c false) /\
+   (forall fuel title, o_kind o <> KSec -> refused (cfg_addtsec strtod_o fuel w c name title) c false) /\
+   (* cfg_rmnsec: index out of range / not a section *)
+   (forall index, (N.of_nat (length (o_vals o)) <= index)%N -> refused (cfg_rmnsec w c name index) c FAIL) /\
+   (forall index, o_kind o <> KSec -> refused (cfg_rmnsec w c name index) c FAIL) /\
+   (* cfg_rmtsec: no title given / option without TITLE / unknown title *)
+   refused (cfg_rmtsec w c name None) c FAIL /\
+   (forall t, oflag o CFGF_TITLE = false -> refused (cfg_rmtsec w c name (Some t)) c FAIL) /\
+   (forall t, gettsecidx o t = None -> refused (cfg_rmtsec w c name (Some t)) c FAIL)).
+Proof. exact section_refusals. Qed.
+Print Assumptions C10_section_refusals.
+
+(* (b)+(c) in general form: whatever the reason, a by-name call that answers CFG_FAIL hands back
+   the tree it was given *)
+Theorem C10_fail_atomic :
+  forall (strtod_o : str -> strtod_res) (w : pw) (c : cfg) (name : str) (w' : pw) (c' : cfg),
+  (forall z index, cfg_setnint w c name z index = (w', c', FAIL) -> c' = c) /\
+  (forall b index, cfg_setnfloat w c name b index = (w', c', FAIL) -> c' = c) /\
+  (forall b index, cfg_setnbool w c name b index = (w', c', FAIL) -> c' = c) /\
+  (forall s index, cfg_setnstr w c name s index = (w', c', FAIL) -> c' = c) /\
+  (forall vs, cfg_setlist w c name vs = (w', c', FAIL) -> c' = c) /\
+  (forall vs, cfg_addlist w c name vs = (w', c', FAIL) -> c' = c) /\
+  (forall fuel vals, cfg_setmulti strtod_o fuel w c name vals = (w', c', FAIL) -> c' = c) /\
+  (forall cm, cfg_setcomment w c name cm = (w', c', FAIL) -> c' = c) /\
+  (forall index, cfg_rmnsec w c name index = (w', c', FAIL) -> c' = c) /\
+  (forall title, cfg_rmtsec w c name title = (w', c', FAIL) -> c' = c) /\
+  (cfg_rmsec w c name = (w', c', FAIL) -> c' = c).
+Proof. exact fail_atomic. Qed.
+Print Assumptions C10_fail_atomic.
+
+(* (d) KNOWN FINDING: cfg_setopt itself is not atomic.  A pristine integer option (RESET set, value 7)
+   given the text "x": the result is NULL, yet the old value is gone, a zero slot is in its place and
+   RESET is cleared (no fuel exhaustion involved). *)
+Theorem C10_setopt_text_refuted :
+  exists (strtod_o : str -> strtod_res) (fuel : nat) (w : pw) (c : cfg) (o : opt) (txt : str),
+    o_kind o = KInt /\ oflag o CFGF_RESET = true /\ o_vals o = [VInt 7] /\
+    snd (setopt strtod_o fuel w c o (Some txt)) = None /\
+    o_vals (snd (fst (setopt strtod_o fuel w c o (Some txt)))) = [VInt 0] /\
+    oflag (snd (fst (setopt strtod_o fuel w c o (Some txt)))) CFGF_RESET = false /\
+    w_oof (fst (fst (setopt strtod_o fuel w c o (Some txt)))) = false.
+Proof. exact setopt_text_not_atomic. Qed.
+Print Assumptions C10_setopt_text_refuted.
+
+(* ---------- a concrete tree: the hypotheses are satisfiable, the calls do what is claimed ---------- *)
+Module Ex.
+Definition B := bs_of_string.
+Definition sd := ex_sd.
+Definition w0 := ex_w0.
+Definition cbv2 : cbset :=
+  {| cb_parse := None; cb_valid := None; cb_valid2 := Some 0%N; cb_print := None; cb_free := false; cb_func := None |}.
+Definition oi := Opt (B "i") KInt 0 [VInt 7] [] defv0 None cbset0.
+(* a list with two values, an annotation, pristine (LIST|RESET) *)
+Definition ol := Opt (B "l") KInt 66 [VInt 1; VInt 2] [] defv0 (Some (B "note")) cbset0.
+Definition os := Opt (B "s") KStr 0 [VStr (Some (B "hi"))] [] defv0 None cbset0.
+Definition sec (t : String.string) (a : Z) : cfg :=
+  Cfg (B "t") (Some (B t)) 0 [Opt (B "a") KInt 0 [VInt a] [] defv0 None cbset0] None 0 true None.
+(* a titled multi section (MULTI|TITLE) with two instances *)
+Definition ot := Opt (B "t") KSec 9 [VSec (Some (sec "one" 5)); VSec (Some (sec "two" 6))]
+                     [Opt (B "a") KInt 0 [] [] defv0 None cbset0] defv0 None cbset0.
+(* an integer with a validation callback *)
+Definition ov := Opt (B "v") KInt 0 [VInt 0] [] defv0 None cbv2.
+Definition c1 := Cfg (B "root") None 0 [oi; ol; os; ot; ov] None 0 true None.
+(* a world in which the next callback invocation fails *)
+Definition wf : pw := {| w_lex := w_lex w0; w_env := w_env w0; w_fs := w_fs w0; w_pw := w_pw w0; w_path := w_path w0;
+  w_cbs := []; w_cnt := 0; w_failat := 1; w_nextptr := 1; w_diags := []; w_open := 0; w_crash := None; w_oof := false |}.
+
+Example C10_ex_lookup :
+  map (fun n => fst (cfg_getopt c1 (B n))) ["i"; "l"; "s"; "t"; "v"; "nosuch"]
+  = [Some ([], 0); Some ([], 1); Some ([], 2); Some ([], 3); Some ([], 4); None] /\
+  get_opt c1 ([], 1) = Some ol /\ get_opt c1 ([], 3) = Some ot.
+Proof. vm_compute. repeat split; reflexivity. Qed.
+
+(* (a): the second value is refused after the first was stored (and the old values, the annotation
+   and RESET had been dropped): FAIL, and the option is back — values, flags 66, annotation *)
+Example C10_ex_setmulti_reverts :
+  let '(_, o', rc) := opt_setmulti sd 10 w0 c1 ol [Some (B "3"); Some (B "x")] in rc = FAIL /\ o' = ol.
+Proof. vm_compute. split; reflexivity. Qed.
+
+(* ... through the by-name call: the tree is back *)
+Example C10_ex_cfg_setmulti_reverts :
+  refused (cfg_setmulti sd 10 w0 c1 (B "l") [Some (B "3"); Some (B "x")]) c1 FAIL.
+Proof. vm_compute. split; reflexivity. Qed.
+
+(* the success branch does replace the values (so the revert is not vacuous) *)
+Example C10_ex_setmulti_ok :
+  let '(_, o', rc) := opt_setmulti sd 10 w0 c1 ol [Some (B "3"); Some (B "4")] in
+  rc = OK /\ o_vals o' = [VInt 3; VInt 4] /\ o_comment o' = Some (B "note").
+Proof. vm_compute. repeat split; reflexivity. Qed.
+
+(* (b) *)
+Example C10_ex_setters :
+  refused (cfg_setnint w0 c1 (B "nosuch") 5 0) c1 FAIL /\        (* unresolved *)
+  refused (cfg_setnint w0 c1 (B "s") 5 0) c1 FAIL /\             (* kind differs *)
+  refused (cfg_setnstr w0 c1 (B "i") (Some (B "x")) 0) c1 FAIL /\
+  refused (cfg_setnint w0 c1 (B "i") 5 3) c1 FAIL /\             (* index on a plain option *)
+  snd (run_validcb2 wf ov (V2Int 5)) = true /\
+  refused (cfg_setnint wf c1 (B "v") 5 0) c1 FAIL /\             (* validcb2 objects *)
+  refused (cfg_setlist w0 c1 (B "i") [VInt 1]) c1 FAIL /\        (* not a list *)
+  refused (cfg_addlist w0 c1 (B "i") [VInt 1]) c1 FAIL /\
+  refused (cfg_setmulti sd 10 w0 c1 (B "l") []) c1 FAIL /\
+  refused (cfg_setcomment w0 c1 (B "l") None) c1 FAIL.
+Proof. vm_compute. repeat split; reflexivity. Qed.
+
+(* the same calls with acceptable arguments do change the tree *)
+Example C10_ex_setters_ok :
+  snd (cfg_setnint w0 c1 (B "i") 5 0) = OK /\ snd (fst (cfg_setnint w0 c1 (B "i") 5 0)) <> c1 /\
+  snd (cfg_setnint w0 c1 (B "v") 5 0) = OK /\
+  snd (cfg_setcomment w0 c1 (B "l") (Some (B "c"))) = OK.
+Proof. vm_compute. repeat split; try reflexivity; discriminate. Qed.
+
+(* (c) *)
+Example C10_ex_sections :
+  gettsecidx ot (B "one") = Some 0 /\
+  refused (cfg_addtsec sd 10 w0 c1 (B "t") (Some (B "one"))) c1 false /\   (* title taken *)
+  refused (cfg_addtsec sd 10 w0 c1 (B "i") (Some (B "x"))) c1 false /\     (* not a section *)
+  refused (cfg_rmnsec w0 c1 (B "t") 2) c1 FAIL /\                          (* index = size *)
+  refused (cfg_rmtsec w0 c1 (B "t") (Some (B "three"))) c1 FAIL /\         (* unknown title *)
+  refused (cfg_rmtsec w0 c1 (B "t") None) c1 FAIL /\
+  refused (cfg_rmtsec w0 c1 (B "l") (Some (B "one"))) c1 FAIL /\           (* option without TITLE *)
+  refused (cfg_rmsec w0 c1 (B "nosuch")) c1 FAIL.
+Proof. vm_compute. repeat split; reflexivity. Qed.
+
+Example C10_ex_sections_ok :
+  snd (cfg_addtsec sd 10 w0 c1 (B "t") (Some (B "three"))) = true /\
+  snd (cfg_rmnsec w0 c1 (B "t") 1) = OK /\ snd (cfg_rmtsec w0 c1 (B "t") (Some (B "two"))) = OK /\
+  snd (cfg_rmsec w0 c1 (B "t=one")) = OK.
+Proof. vm_compute. repeat split; reflexivity. Qed.
+
+(* (d) the witness spelled out *)
+Example C10_ex_setopt_not_atomic :
+  let '(_, o', res) := setopt sd 1 w0 ex_root ex_pristine (Some (B "x")) in
+  res = None /\ o' = Opt (B "i") KInt CFGF_MODIFIED [VInt 0] [] defv0 None cbset0.
+Proof. vm_compute. split; reflexivity. Qed.
+End Ex.
